@@ -39,11 +39,19 @@ Definition written_by (k : Z) (ivs : list (Z * Z)) (o : tseg) : bool :=
   let '(rg, lo, hi, _) := o in
   (rg =? ARENA) && covered (fold_left hwrite (clobbers k ivs) []) ARENA lo hi (scratch_tag k).
 
-(* the (reads, writes) pair of Ethos-U custom operator number k: None when an output is not written by its stream *)
+(* an output that occupies exactly the bytes of one of the operator's own inputs: the plan lets a tensor that is only
+   re-interpreted (a RESHAPE between a graph input and a graph output) share the place of its source, and the stream
+   has nothing to copy.  Its bytes are those of the input, which the operator demands. *)
+Definition aliases_input (ins : list tseg) (o : tseg) : bool :=
+  let '(rg, lo, hi, _) := o in
+  (rg =? ARENA) && existsb (fun i => let '(rg', lo', hi', _) := i in (rg' =? rg) && (lo' =? lo) && (hi' =? hi)) ins.
+
+(* the (reads, writes) pair of Ethos-U custom operator number k: None when an output is neither written by its stream
+   nor such an alias *)
 Definition npu_top_op (hw : hwcfg) (evs : list event) (b1 b2 k : Z) (ins outs : list tseg)
   : option (list tseg * list tseg) :=
   let ivs := arena_ivs b1 b2 (stream_writes hw evs) in
-  if forallb (written_by k ivs) outs then Some (ins, clobbers k ivs ++ outs) else None.
+  if forallb (fun o => written_by k ivs o || aliases_input ins o) outs then Some (ins, clobbers k ivs ++ outs) else None.
 
 Inductive top :=
 | TCpu (rs ws : list tseg)
